@@ -8,6 +8,7 @@ bytes of string tokens are never marked.  The index is `SimpleJsonIndex::build` 
 `Model/JsonSimple.lean` (runtime-dispatched SIMD builder; by C05 it is the reference index).
 -/
 import SuccinctlyVerif.Proof.JsonSimple
+import SuccinctlyVerif.Proof.JsonBridge
 namespace SV.Props.C32
 open SV SV.JsonSimple SV.JsonText
 
@@ -134,5 +135,17 @@ example :
       (.arr [] (.num ⟨false, .nonzero 0 [], none, none⟩) [] (.cons [] (.obj0 []) [] .nil)) [] .nil, []⟩
     d.occs.map (fun o => ((toksBytes o.1).length, (toksBytes o.2.1.toks).length)) = [(0, 12), (5, 6), (6, 1), (8, 2)] := by
   decide
+
+/-! ### the documents quantified over include exactly the RFC 8259 texts of C08 -/
+
+/-- Every text that is `Valid` in C08's grammar (`Spec/Json.lean`, any nesting bound) is `d.text` for
+some `Doc` (`JsonNav.valid_lift`), and every `Doc` whose strings are well-formed renders to a `Valid`
+text (`JsonNav.doc_valid`); so the theorems above hold in particular for every RFC 8259 text. -/
+theorem covers_rfc8259_texts (hasAvx2 : Bool) (D : Nat) (b : List (BitVec 8)) (h : Json.Valid D b) :
+    ∃ d : Doc, d.text = b ∧
+      structuralPositions (build hasAvx2 b) = truePositions (toksTags d.toks) := by
+  obtain ⟨d, hd, _⟩ := JsonNav.valid_lift D b h
+  subst hd
+  exact ⟨d, rfl, (structural_list_eq hasAvx2 d).1⟩
 
 end SV.Props.C32
